@@ -274,7 +274,12 @@ impl PathSliceList {
                                     if next_need_comma_sep {
                                         write!(s, ",")?;
                                     }
-                                    write!(s, "{}:{}", key, sub_s)?;
+                                    if key.as_str() == "__proto__" {
+                                        // (an own entry of the tree object, not its prototype)
+                                        write!(s, "[\"__proto__\"]:{}", sub_s)?;
+                                    } else {
+                                        write!(s, "{}:{}", key, sub_s)?;
+                                    }
                                     next_need_comma_sep = true;
                                 }
                                 None => {
@@ -520,13 +525,20 @@ impl Expression {
                 let mut need_object_assign = false;
                 let mut next_need_comma_sep = false;
                 let mut sub_pas_list = Vec::with_capacity(x.len());
+                let mut has_proto_setter = false;
                 for x in x.iter() {
                     match x {
                         ObjectFieldKind::Named { name, value, .. } => {
                             if next_need_comma_sep {
                                 write!(s, ",")?;
                             }
-                            write!(s, "{}:", &name)?;
+                            if name.as_str() == "__proto__" && has_proto_setter {
+                                // (a second `__proto__:` in one literal is a syntax error in JavaScript)
+                                write!(s, "[\"__proto__\"]:")?;
+                            } else {
+                                has_proto_setter = has_proto_setter || name.as_str() == "__proto__";
+                                write!(s, "{}:", &name)?;
+                            }
                             let (pas, sub_p) = value.to_proc_gen_rec_and_combine_paths(
                                 w,
                                 scopes,
@@ -547,6 +559,7 @@ impl Expression {
                             write!(s, "),{{")?;
                             need_object_assign = true;
                             next_need_comma_sep = false;
+                            has_proto_setter = false;
                             sub_pas_list.push((None, pas, sub_p));
                         }
                     }
